@@ -10,6 +10,12 @@ import BB.Proofs.Consistent
 import BB.Proofs.Delay
 import BB.Proofs.Basic
 import BB.Model.Sequence
+import BB.Proofs.G4ZeroSeq
+import BB.Proofs.G4Wave
+import BB.Proofs.G4Prep
+import BB.Proofs.G4Example
+import BB.Proofs.G4Frame
+import BB.Proofs.G4Built
 
 namespace BB.C10
 open BB BP Element
@@ -280,5 +286,745 @@ theorem output_path_equals_forge (s : Sequence) (F : List (ℕ × ForgedPos)) (P
     · assumption
   exact Paths.paths_agree s F P hF hP hwf
     (fun e1 p e h1 h2 => consistent_channels_perm s hc 1 p e1 e h1 h2)
+
+/-! ### all delays zero: the undelayed output -/
+
+/-- **a blueprint delayed by 0 out of 0 forges to the undelayed waveform**: same exception, or —
+    on success — the same number of samples, both marker arrays, sample rate, segment durations,
+    and block by block the same samples (`eval?`) and lengths.  (The only thing `_applyDelays`
+    rewrites is the unused `dummy` argument of `waituntil` blocks.) -/
+theorem zero_delay_blueprint (b : BP) :
+    (∀ e, forgeBP b = .error e → forgeBP (delayBP b 0 0).st = .error e) ∧
+    (∀ f, forgeBP b = .ok f → ∃ f', forgeBP (delayBP b 0 0).st = .ok f' ∧
+      f'.N = f.N ∧ f'.m1 = f.m1 ∧ f'.m2 = f.m2 ∧ f'.SR = f.SR ∧ f'.newdurations = f.newdurations ∧
+      f'.blocks.map Blk.eval? = f.blocks.map Blk.eval? ∧ f'.blocks.map Blk.len = f.blocks.map Blk.len) := by
+  have h := forgeBP_zero_delay b
+  constructor
+  · intro e he
+    rw [he] at h
+    cases h' : forgeBP (delayBP b 0 0).st with
+    | error e' => rw [h'] at h; simp only [Except.map, Except.error.injEq] at h; rw [h]
+    | ok f' => rw [h'] at h; simp [Except.map] at h
+  · intro f hf
+    rw [hf] at h
+    cases h' : forgeBP (delayBP b 0 0).st with
+    | error e' => rw [h'] at h; simp [Except.map] at h
+    | ok f' =>
+      rw [h'] at h
+      simp only [Except.map, Except.ok.injEq] at h
+      obtain ⟨a1, a2, a3, a4, a5, a6, a7⟩ := Forged.norm_observables f'
+      obtain ⟨b1, b2, b3, b4, b5, b6, b7⟩ := Forged.norm_observables f
+      rw [h] at a1 a2 a3 a4 a5 a6 a7
+      exact ⟨f', rfl, a1.symm.trans b1, a2.symm.trans b2, a3.symm.trans b3, a4.symm.trans b4, a5.symm.trans b5,
+        a6.symm.trans b6, a7.symm.trans b7⟩
+
+/-! the literal blocks can differ: `_applyDelays` replaces the argument tuple of a `waituntil`
+    segment by `(oldwait + delay,)` even for `delay = 0`, dropping further (unused) arguments -/
+def exWaitBP : BP :=
+  { segs := [ { name := "waituntil", fn := Fn.waitSpecial, args := [.num 1, .num 7], dur := .none } ],
+    SR := .num 10 }
+
+example : forgeBP (delayBP exWaitBP 0 0).st ≠ forgeBP exWaitBP := by
+  decide +kernel
+
+/-- "every delay is 0" in terms of the settings: no delay key, or the value 0 -/
+theorem delays_zero_of_specs (s : Sequence)
+    (h : ∀ ch, Dict.get? s.awgspecs (keyOf ch "delay") = none ∨
+      Dict.get? s.awgspecs (keyOf ch "delay") = some (.val (.num 0))) : ∀ ch, s.delayOf ch = .ok 0 := by
+  intro ch
+  rcases h ch with h | h <;> simp [SeqCore.delayOf, h]
+
+/-- **with all delays zero, `forge` with delays on is `forge` with delays off**: the same
+    exception, or the same forged structure — positions, sequencing, types, channel ids and order,
+    markers, flags, time axis, filter annotations, blocks with their pulse functions, sample rates
+    and sample counts — up to `normOut`, which erases the unused argument of `waituntil` blocks
+    (see `norm_keeps_output`: nothing that reaches the instrument depends on it) -/
+theorem forge_all_delays_zero (s : Sequence) (hz : ∀ ch, s.delayOf ch = .ok 0) (f t : Bool) :
+    (s.forge true f t).map Sequence.normOut = (s.forge false f t).map Sequence.normOut :=
+  Sequence.forge_zero_delays s hz f t
+
+/-- erasing the unused argument of `waituntil` blocks changes nothing the output methods read
+    from a forged channel: evaluated waveform, length, both markers, flags, filter annotation -/
+theorem norm_keeps_output (c : ChOutF) :
+    (Sequence.chWave (Sequence.ChOutF.norm c)).map Sequence.Wave.eval? = (Sequence.chWave c).map Sequence.Wave.eval? ∧
+    (Sequence.chWave (Sequence.ChOutF.norm c)).map Sequence.Wave.len = (Sequence.chWave c).map Sequence.Wave.len ∧
+    (∀ w, Sequence.chMarker (Sequence.ChOutF.norm c) w = Sequence.chMarker c w) ∧
+    Sequence.chFlags (Sequence.ChOutF.norm c) = Sequence.chFlags c ∧ (Sequence.ChOutF.norm c).filt = c.filt := by
+  obtain ⟨o, fl⟩ := c
+  cases o with
+  | forged f flg t =>
+    obtain ⟨_, _, _, _, _, h6, h7⟩ := Forged.norm_observables f
+    refine ⟨?_, ?_, fun w => rfl, rfl, rfl⟩
+    · simp only [Sequence.ChOutF.norm, ChOut.norm, Sequence.chWave, Except.map, Sequence.Wave.eval?]
+      cases fl with
+      | some _ => rfl
+      | none =>
+        simp only [Except.ok.injEq]
+        rw [g4_mapM_option_congr Blk.eval? _ _ h6]
+    · simp only [Sequence.ChOutF.norm, ChOut.norm, Sequence.chWave, Except.map, Sequence.Wave.len, h7]
+  | arrays a flg tm => exact ⟨rfl, rfl, fun w => rfl, rfl, rfl⟩
+
+/-- the hypothesis of `forge_all_delays_zero` is satisfiable: a sequence without delay settings -/
+example : ∀ ch, G4Ex.exFlatNoDelay.delayOf ch = .ok 0 := by
+  apply delays_zero_of_specs
+  intro ch
+  left
+  have h1 : keyOf ch "delay" ≠ "SR" := Sequence.g4_keyOf_ne_SR ch _
+  have h2 : keyOf ch "delay" ≠ "channelA_filtercompensation" := by
+    have : "channelA_filtercompensation" = keyOf (.str "A") "filtercompensation" := by decide
+    rw [this]
+    exact Sequence.g4_keyOf_delay_ne_filter _ _
+  simp [G4Ex.exFlatNoDelay, Dict.get?, List.find?, h1.symm, h2.symm]
+
+/-- ... on which both forges succeed -/
+example : (G4Ex.exFlatNoDelay.forge true true false).toOption.isSome = true ∧
+    (G4Ex.exFlatNoDelay.forge false true false).toOption.isSome = true := by
+  constructor <;> decide +kernel
+
+/-! ### the delayed waveform, evaluated -/
+
+/-- helper (C10, whole-sample delays): rounding a whole number of samples is exact -/
+theorem rhe_natCast (n : ℕ) : rhe (n : ℚ) = (n : ℤ) := by
+  have := rhe_int (n : ℤ)
+  simpa using this
+
+/-- helper (C10, whole-sample delays): a delay of `D` whole samples at a positive rate is non-negative, and positive iff `D > 0` -/
+theorem pos_of_whole (sr x : ℚ) (D : ℕ) (hsr : 0 < sr) (h : x * sr = D) : (0 < x ↔ 0 < D) ∧ 0 ≤ x := by
+  have hD0 : (0 : ℚ) ≤ D := by exact_mod_cast Nat.zero_le D
+  have hx0 : 0 ≤ x := by
+    by_contra hn
+    have : x * sr < 0 := mul_neg_of_neg_of_pos (not_le.mp hn) hsr
+    linarith
+  refine ⟨⟨fun hx => ?_, fun hD => ?_⟩, hx0⟩
+  · have : 0 < x * sr := mul_pos hx hsr
+    rw [h] at this
+    exact_mod_cast this
+  · by_contra hn
+    have hx : x = 0 := le_antisymm (not_lt.mp hn) hx0
+    rw [hx, zero_mul] at h
+    have : (D : ℚ) = 0 := h.symm
+    have : D = 0 := by exact_mod_cast this
+    omega
+
+/-- **the delayed waveform is `zeros(D) ++ original ++ zeros(M − D)`**: if the undelayed blueprint
+    forges to `f` and its blocks evaluate to the samples `ys`, and delay and maximum delay are the
+    whole sample counts `D ≤ M` (each padding absent or at least two samples), then the delayed
+    blueprint forges, has `f.N + M` samples, and evaluates to `D` zeros, `ys`, `M − D` zeros -/
+theorem delayed_waveform_eval (b : BP) (sr delay maxdelay : ℚ) (f : Forged) (ys : List ℚ) (D M : ℕ)
+    (hsr : b.SR = .num sr) (hf : forgeBP b = .ok f) (hev : Sequence.Wave.eval? { blocks := f.blocks } = some ys)
+    (hsr0 : 0 < sr) (hD : delay * sr = D) (hM : maxdelay * sr = M) (hle : D ≤ M)
+    (hfront : D = 0 ∨ 2 ≤ D) (hback : M - D = 0 ∨ 2 ≤ M - D) :
+    ∃ f', forgeBP (delayBP b delay maxdelay).st = .ok f' ∧ f'.N = f.N + M ∧ f'.SR = f.SR ∧
+      Sequence.Wave.eval? { blocks := f'.blocks } =
+        some (List.replicate D 0 ++ ys ++ List.replicate (M - D) 0) := by
+  obtain ⟨sr', ds, ns, hsr', hd, hn, hb, rfl⟩ := (forge_ok_iff b f).mp hf
+  rw [hsr] at hsr'
+  cases hsr'
+  have hl : ns.length = b.segs.length := by
+    rw [countsGo_length sr ds ns hn]; exact resolveGo_length _ _ _ hd
+  obtain ⟨hdpos, h0⟩ := pos_of_whole sr delay D hsr0 hD
+  have hMD : (maxdelay - delay) * sr = ((M - D : ℕ) : ℚ) := by
+    rw [sub_mul, hD, hM]; push_cast [Nat.cast_sub hle]; ring
+  obtain ⟨hbpos, _⟩ := pos_of_whole sr (maxdelay - delay) (M - D) hsr0 hMD
+  have e1 : rhe (delay * sr) = (D : ℤ) := by rw [hD]; exact rhe_natCast D
+  have e2 : rhe ((maxdelay - delay) * sr) = ((M - D : ℕ) : ℤ) := by rw [hMD]; exact rhe_natCast _
+  have hfr : 0 < delay → 2 ≤ rhe (delay * sr) := by
+    intro hp
+    have := hdpos.mp hp
+    rw [e1]; omega
+  have hbk : 0 < maxdelay - delay → 2 ≤ rhe ((maxdelay - delay) * sr) := by
+    intro hp
+    have := hbpos.mp hp
+    rw [e2]; omega
+  refine ⟨_, delayed_forge b sr delay maxdelay ds ns hsr hd hn hb h0 hfr hbk, ?_, rfl, ?_⟩
+  · show sumN (delayedCounts sr delay maxdelay ns) = sumN ns + M
+    exact delayed_length_whole sr delay maxdelay ns D M hsr0 hD hM hle
+  · rw [delayed_blocks b sr delay maxdelay ns hl]
+    -- the original blocks evaluate to `ys`
+    simp only [Sequence.Wave.eval?, assemble] at hev
+    cases hxs : (mkBlocks sr b.segs ns).mapM Blk.eval? with
+    | none => rw [hxs] at hev; simp at hev
+    | some xs =>
+      rw [hxs] at hev
+      simp only [Option.map_some, Option.some.injEq] at hev
+      simp only [Sequence.Wave.eval?, List.mapM_append, eval_shifted_blocks, hxs, e1, e2, Int.toNat_natCast]
+      have hA : (if 0 < delay then [Blk.call Fn.waitCallable [.num delay] sr D] else []).mapM Blk.eval? =
+          some (if 0 < delay then [List.replicate D 0] else []) := by
+        split
+        · simp [List.mapM_cons, g4_eval_wait_block]
+        · rfl
+      have hC : (if 0 < maxdelay - delay then [Blk.call Fn.rampFn [.num 0, .num 0] sr (M - D)] else []).mapM Blk.eval? =
+          some (if 0 < maxdelay - delay then [List.replicate (M - D) 0] else []) := by
+        split
+        · simp [List.mapM_cons, g4_eval_zero_ramp_block]
+        · rfl
+      rw [hA, hC]
+      simp only [bind, Option.bind, pure, Option.map_some, Option.some.injEq, List.flatten_append, hev]
+      congr 1
+      · congr 1
+        by_cases hp : 0 < delay
+        · simp [hp]
+        · have : D = 0 := by
+            by_contra hne
+            exact hp (hdpos.mpr (by omega))
+          simp [hp, this]
+      · by_cases hp : 0 < maxdelay - delay
+        · simp [hp]
+        · have : M - D = 0 := by
+            by_contra hne
+            exact hp (hbpos.mpr (by omega))
+          simp [hp, this]
+
+/-! ### end to end: one element through `forge`'s delay step and `getArrays` -/
+
+/-- what a successful delay step knows: the delays handed to `_applyDelays` are the ones looked up
+    per channel, none is negative, the element has a numeric sample rate -/
+theorem delay_step_facts (s : Sequence) (e e' : Element) (ds : List ℚ) (hds : e.channels.mapM s.delayOf = .ok ds)
+    (hde : s.delayElement e = .ok e') :
+    (e.applyDelays ds).err = none ∧ (e.applyDelays ds).st = e' ∧ ∀ d ∈ ds, 0 ≤ d := by
+  obtain ⟨ds', h1, h2, h3⟩ := Sequence.g4_delayElement_ok s e e' hde
+  rw [hds] at h1
+  cases h1
+  refine ⟨h2, h3, ?_⟩
+  unfold Element.applyDelays at h2
+  split at h2
+  · simp at h2
+  · split at h2
+    · simp at h2
+    · rename_i hneg
+      intro d hd
+      by_contra hn
+      apply hneg
+      simp only [List.any_eq_true, decide_eq_true_eq]
+      exact ⟨d, hd, not_le.mp hn⟩
+
+/-- helper (C10): the sample rate `validateDurations` reads off a blueprint channel is the blueprint's -/
+theorem chanSR_bp (ent : ChEntry) (b : BP) (h : ent.data = .bp b) : chanSR ent = .ok b.SR := by
+  obtain ⟨d, fl⟩ := ent
+  simp only at h
+  subst h
+  rfl
+
+/-- **a blueprint channel, end to end**: after `forge`'s delay step (`delayElement`: the delays
+    looked up by the element's own channel ids, handed to `_applyDelays`), channel `k` of
+    `getArrays` — same channel id, same flags — holds the undelayed waveform moved later by exactly
+    `D = delay·SR` samples: `D` zeros, the original samples, `M − D` zeros, where `M = maxdelay·SR`;
+    its length is the original length plus `M` -/
+theorem delayed_element_bp_channel (s : Sequence) (e e' : Element) (ds : List ℚ)
+    (hds : e.channels.mapM s.delayOf = .ok ds) (hde : s.delayElement e = .ok e')
+    (sr : ℚ) (hsr : e.getSR = .ok (.num sr)) (hsr0 : 0 < sr)
+    (k : ℕ) (hk : k < e.chans.length) (hkd : k < ds.length) (b : BP) (hb : (e.chans[k]).2.data = .bp b)
+    (f : Forged) (hf : forgeBP b = .ok f) (ys : List ℚ) (hev : Sequence.Wave.eval? { blocks := f.blocks } = some ys)
+    (D M : ℕ) (hD : ds[k] * sr = D) (hM : maxR ds * sr = M)
+    (hfront : D = 0 ∨ 2 ≤ D) (hback : M - D = 0 ∨ 2 ≤ M - D) (t : Bool) :
+    ∃ f', f'.N = f.N + M ∧ f'.SR = f.SR ∧
+      Sequence.Wave.eval? { blocks := f'.blocks } = some (List.replicate D 0 ++ ys ++ List.replicate (M - D) 0) ∧
+      ∀ arr, e'.getArrays t = .ok arr → ∀ (h : k < arr.length),
+        arr[k] = ((e.chans[k]).1, ChOut.forged f' (e.chans[k]).2.flags t) := by
+  obtain ⟨herr, hst, hnn⟩ := delay_step_facts s e e' ds hds hde
+  obtain ⟨m, sr', hv, hm, hlen, hl, hall⟩ := g4_applyDelays_getElem e ds herr
+  have hsr' : sr' = sr := by
+    unfold Element.getSR at hsr
+    rw [hv] at hsr
+    simp only [Except.map, Except.ok.injEq] at hsr
+    rw [hm] at hsr
+    cases hsr; rfl
+  subst hsr'
+  have hbsr : b.SR = .num sr' := by
+    have := (g4_validate_SR e m hv).2 _ (List.getElem_mem hk)
+    rw [chanSR_bp _ b hb, hm] at this
+    exact Except.ok.inj this
+  have hle : D ≤ M := by
+    have h1 : ds[k] ≤ maxR ds := Paths.le_maxR ds _ (List.getElem_mem hkd)
+    have : ds[k] * sr' ≤ maxR ds * sr' := mul_le_mul_of_nonneg_right h1 hsr0.le
+    rw [hD, hM] at this
+    exact_mod_cast this
+  obtain ⟨f', hf', hN, hS, hE⟩ := delayed_waveform_eval b sr' ds[k] (maxR ds) f ys D M hbsr hf hev hsr0 hD hM hle hfront hback
+  refine ⟨f', hN, hS, hE, fun arr harr h => ?_⟩
+  subst hst
+  obtain ⟨h1, h2⟩ := hall k hk (by omega) hkd
+  obtain ⟨hla, hga⟩ := g4_getArrays_getElem _ t arr harr
+  obtain ⟨g1, g2⟩ := hga k (by omega) h
+  have hdat := (g4_dEnt_data _ _ _ _ _ h2).1 b hb
+  have hfl := g4_dEnt_flags _ _ _ _ _ h2
+  obtain ⟨_, _, o3, _⟩ := g4_chanOut_spec t _ _ g2
+  obtain ⟨f'', hf'', ho⟩ := o3 _ hdat
+  rw [hf'] at hf''
+  cases hf''
+  have : arr[k] = ((arr[k]).1, (arr[k]).2) := rfl
+  rw [this, g1, h1, ho, hfl]
+
+/-- helper (C10, raw-array clause): looking an array up in a padded raw-array channel gives the padded array -/
+theorem get_padAll (pre post : ℕ) (a : Dict String (List ℚ)) (key : String) :
+    Dict.get? (Paths.padAll pre post a) key = (Dict.get? a key).map (padArr pre post) := by
+  unfold Paths.padAll
+  induction a with
+  | nil => rfl
+  | cons x xs ih =>
+    unfold Dict.get? at *
+    simp only [List.map_cons, List.find?_cons]
+    by_cases hk : x.1 = key
+    · simp [hk]
+    · simp only [hk, decide_false]
+      exact ih
+
+/-- **a raw-array channel, end to end**: after the delay step, channel `k` of `getArrays` — same
+    channel id, same flags — holds, under every array name of the channel ('wfm' and the marker
+    arrays alike), the stored array with `D = delay·SR` zeros in front and `M − D` zeros behind -/
+theorem delayed_element_raw_channel (s : Sequence) (e e' : Element) (ds : List ℚ)
+    (hds : e.channels.mapM s.delayOf = .ok ds) (hde : s.delayElement e = .ok e')
+    (sr : ℚ) (hsr : e.getSR = .ok (.num sr)) (hsr0 : 0 < sr)
+    (k : ℕ) (hk : k < e.chans.length) (hkd : k < ds.length) (a : Dict String (List ℚ)) (sv : Val)
+    (ha : (e.chans[k]).2.data = .arr a sv)
+    (D M : ℕ) (hD : ds[k] * sr = D) (hM : maxR ds * sr = M) (t : Bool) :
+    D ≤ M ∧
+    ∀ arr, e'.getArrays t = .ok arr → ∀ (h : k < arr.length), ∃ a' tm,
+      arr[k] = ((e.chans[k]).1, ChOut.arrays a' (e.chans[k]).2.flags tm) ∧ Dict.keys a' = Dict.keys a ∧
+      ∀ key, Dict.get? a' key = (Dict.get? a key).map (padArr D (M - D)) := by
+  obtain ⟨herr, hst, hnn⟩ := delay_step_facts s e e' ds hds hde
+  obtain ⟨m, sr', hv, hm, hlen, hl, hall⟩ := g4_applyDelays_getElem e ds herr
+  have hsr' : sr' = sr := by
+    unfold Element.getSR at hsr
+    rw [hv] at hsr
+    simp only [Except.map, Except.ok.injEq] at hsr
+    rw [hm] at hsr
+    cases hsr; rfl
+  subst hsr'
+  have hle : D ≤ M := by
+    have h1 : ds[k] ≤ maxR ds := Paths.le_maxR ds _ (List.getElem_mem hkd)
+    have : ds[k] * sr' ≤ maxR ds * sr' := mul_le_mul_of_nonneg_right h1 hsr0.le
+    rw [hD, hM] at this
+    exact_mod_cast this
+  refine ⟨hle, fun arr harr h => ?_⟩
+  subst hst
+  obtain ⟨h1, h2⟩ := hall k hk (by omega) hkd
+  obtain ⟨hla, hga⟩ := g4_getArrays_getElem _ t arr harr
+  obtain ⟨g1, g2⟩ := hga k (by omega) h
+  have hdat := (g4_dEnt_data _ _ _ _ _ h2).2.1 a sv ha
+  have hfl := g4_dEnt_flags _ _ _ _ _ h2
+  obtain ⟨_, _, _, o4, _⟩ := g4_chanOut_spec t _ _ g2
+  obtain ⟨tm, ho⟩ := o4 _ _ hdat
+  have e1 : rhe (ds[k] * sr') = (D : ℤ) := by rw [hD]; exact rhe_natCast D
+  have hMD : (maxR ds - ds[k]) * sr' = ((M - D : ℕ) : ℚ) := by
+    rw [sub_mul, hD, hM]; push_cast [Nat.cast_sub hle]; ring
+  have e2 : rhe ((maxR ds - ds[k]) * sr') = ((M - D : ℕ) : ℤ) := by rw [hMD]; exact rhe_natCast _
+  rw [e1, e2] at ho
+  simp only [Int.toNat_natCast] at ho
+  refine ⟨_, tm, ?_, Sequence.g4_keys_padAll _ _ _, fun key => get_padAll D (M - D) a key⟩
+  have : arr[k] = ((arr[k]).1, (arr[k]).2) := rfl
+  rw [this, g1, h1, ho, hfl]
+
+/-- non-vacuity of the two end-to-end theorems: the example element (blueprint channel 1 delayed by
+    2 samples, raw channel "A" not delayed) under the example sequence's settings -/
+example : G4Ex.exEl.channels.mapM G4Ex.exSeq.delayOf = .ok [1/5, 0] ∧
+    (G4Ex.exSeq.delayElement G4Ex.exEl).toOption.isSome = true ∧ G4Ex.exEl.getSR = .ok (.num 10) ∧
+    ((1 : ℚ) / 5) * 10 = (2 : ℕ) ∧ maxR [1/5, 0] * 10 = (2 : ℕ) ∧
+    (forgeBP G4Ex.exBP).toOption.bind (fun f => Sequence.Wave.eval? { blocks := f.blocks }) =
+      some [0, 1/10, 2/10, 3/10, 4/10, 5/10, 6/10, 7/10, 8/10, 9/10] := by
+  refine ⟨by decide +kernel, by decide +kernel, by decide +kernel, by norm_num, by decide +kernel, by decide +kernel⟩
+
+/-- ... and what comes out: channel 1 = 2 zeros ++ ramp, channel "A" = 10 zeros ++ 2 zeros -/
+example : ((G4Ex.exSeq.delayElement G4Ex.exEl).toOption.bind (fun e' => (e'.getArrays false).toOption)).map
+      (fun arr => arr.map (fun x => (x.1, (Sequence.chWave ⟨x.2, none⟩).toOption.bind Sequence.Wave.eval?))) =
+    some [(.int 1, some [0, 0, 0, 1/10, 2/10, 3/10, 4/10, 5/10, 6/10, 7/10, 8/10, 9/10]),
+          (.str "A", some [0, 0, 0, 0, 0, 0, 0, 0, 0, 0, 0, 0])] := by
+  decide +kernel
+
+/-! ### markers of the delayed blueprint -/
+
+/-- the number of samples inserted in front -/
+def frontCount (sr delay : ℚ) : ℕ := if 0 < delay then (rhe (delay * sr)).toNat else 0
+
+/-- helper (C10, marker clause): with a whole-sample delay the number of samples inserted in front is `D` -/
+theorem frontCount_whole (sr delay : ℚ) (D : ℕ) (hsr : 0 < sr) (hD : delay * sr = D) : frontCount sr delay = D := by
+  unfold frontCount
+  have e1 : rhe (delay * sr) = (D : ℤ) := by rw [hD]; exact rhe_natCast D
+  obtain ⟨hpos, _⟩ := pos_of_whole sr delay D hsr hD
+  by_cases h0 : 0 < delay
+  · simp [h0, e1]
+  · simp only [h0, if_false]
+    by_contra hne
+    exact h0 (hpos.mpr (by omega))
+
+/-- **segment-bound markers of the delayed blueprint**: the padding segments carry no marker, and
+    every original segment — starting `frontCount` samples later — contributes its marker
+    `frontCount/SR` later, with unchanged length -/
+theorem delayed_segment_marks (sr delay maxdelay : ℚ) (sel : Seg → Mark)
+    (hh : sel (delayHead delay) = (0, 0)) (ht : sel (delayTail (maxdelay - delay)) = (0, 0))
+    (hs : ∀ s, sel (shiftWait delay s) = sel s) (segs : List Seg) (ns : List ℕ) (hl : ns.length = segs.length) :
+    segMarks sr sel (delayedSegs segs delay maxdelay) (starts (delayedCounts sr delay maxdelay ns) 0) =
+      (segMarks sr sel segs (starts ns 0)).map (fun m => (m.1 + ((frontCount sr delay : ℤ) : ℚ) / sr, m.2)) := by
+  unfold delayedSegs delayedCounts
+  rw [g4_starts_append, g4_starts_append]
+  have hA : (starts (if 0 < delay then [(rhe (delay * sr)).toNat] else []) 0).length =
+      (if 0 < delay then [delayHead delay] else []).length := by
+    by_cases hp : 0 < delay <;> simp [hp, starts]
+  have hB : (starts (if 0 < delay then [(rhe (delay * sr)).toNat] else []) 0 ++
+      starts ns (0 + sumN (if 0 < delay then [(rhe (delay * sr)).toNat] else []))).length =
+      ((if 0 < delay then [delayHead delay] else []) ++ segs.map (shiftWait delay)).length := by
+    rw [List.length_append, List.length_append, hA, starts_length, List.length_map, hl]
+  rw [g4_segMarks_append _ _ _ _ _ _ hB, g4_segMarks_append _ _ _ _ _ _ hA]
+  have h1 : segMarks sr sel (if 0 < delay then [delayHead delay] else [])
+      (starts (if 0 < delay then [(rhe (delay * sr)).toNat] else []) 0) = [] := by
+    by_cases hp : 0 < delay
+    · simp [hp, starts, segMarks, hh]
+    · simp [hp, starts, segMarks]
+  have h3 : ∀ acc, segMarks sr sel (if 0 < maxdelay - delay then [delayTail (maxdelay - delay)] else [])
+      (starts (if 0 < maxdelay - delay then [(rhe ((maxdelay - delay) * sr)).toNat] else []) acc) = [] := by
+    intro acc
+    by_cases hp : 0 < maxdelay - delay
+    · simp [hp, starts, segMarks, ht]
+    · simp [hp, starts, segMarks]
+  have hsum : sumN (if 0 < delay then [(rhe (delay * sr)).toNat] else []) = frontCount sr delay := by
+    unfold frontCount
+    by_cases hp : 0 < delay <;> simp [hp, sumN]
+  rw [h1, h3, hsum, List.nil_append, List.append_nil, g4_starts_shift, g4_segMarks_shift sr delay sel hs,
+    segment_markers_move]
+
+/-- **the marker array of the delayed blueprint**, whole-sample delays: with `abs` the absolute-time
+    markers and `sel` the segment-bound marker specification (marker 1 or 2), the delayed marker
+    array (length `N + M`) is ON exactly on the *unmoved* windows of the absolute-time markers and
+    on the windows of the segment-bound markers *moved by `D` samples* — provided every window lay
+    on the undelayed waveform (`MarkInside`) -/
+theorem delayed_marker_array (sr delay maxdelay : ℚ) (D M : ℕ) (hsr0 : 0 < sr) (hD : delay * sr = D)
+    (hM : maxdelay * sr = M) (hle : D ≤ M) (abs : List Mark) (sel : Seg → Mark)
+    (hh : sel (delayHead delay) = (0, 0)) (ht : sel (delayTail (maxdelay - delay)) = (0, 0))
+    (hs : ∀ s, sel (shiftWait delay s) = sel s) (segs : List Seg) (ns : List ℕ) (hl : ns.length = segs.length)
+    (hin : ∀ m ∈ abs ++ segMarks sr sel segs (starts ns 0), MarkInside (sumN ns) sr m) :
+    paint (sumN (delayedCounts sr delay maxdelay ns))
+        ((abs ++ segMarks sr sel (delayedSegs segs delay maxdelay) (starts (delayedCounts sr delay maxdelay ns) 0)).map
+          (window (sumN (delayedCounts sr delay maxdelay ns)) sr)) =
+      paint (sumN ns + M)
+        (abs.map (window (sumN ns) sr) ++
+          (segMarks sr sel segs (starts ns 0)).map
+            (fun m => ((window (sumN ns) sr m).1 + D, (window (sumN ns) sr m).2 + D))) := by
+  rw [delayed_length_whole sr delay maxdelay ns D M hsr0 hD hM hle,
+    delayed_segment_marks sr delay maxdelay sel hh ht hs segs ns hl, frontCount_whole sr delay D hsr0 hD]
+  congr 1
+  rw [List.map_append, List.map_map]
+  congr 1
+  · apply List.map_congr_left
+    intro m hm
+    exact g4_window_longer _ _ _ _ (hin m (by simp [hm]))
+  · apply List.map_congr_left
+    intro m hm
+    simp only [Function.comp]
+    exact g4_window_shift _ _ _ _ hsr0.ne' m (hin m (by simp [hm])) hle
+
+/-- **marker lift, at the public forger**: if the undelayed blueprint forges to `f` and all its
+    marker windows lie on the waveform, then the delayed blueprint (whole-sample delays `D ≤ M`)
+    forges to `f'` whose marker arrays have length `f.N + M` and, sample by sample:
+    `f'.m1[k] = 1` iff `k` lies in the (unmoved) window of an absolute-time marker, or `k ≥ D` and
+    `k − D` lies in the window of a segment-bound marker of the undelayed blueprint — i.e.
+    segment-bound markers move with the waveform, absolute-time markers keep their absolute times.
+    The same for marker 2. -/
+theorem delayed_forge_markers (b : BP) (sr delay maxdelay : ℚ) (f : Forged) (D M : ℕ)
+    (hsr : b.SR = .num sr) (hf : forgeBP b = .ok f) (hsr0 : 0 < sr) (hD : delay * sr = D) (hM : maxdelay * sr = M)
+    (hle : D ≤ M) (hfront : D = 0 ∨ 2 ≤ D) (hback : M - D = 0 ∨ 2 ≤ M - D)
+    (ns : List ℕ) (hns : ns = f.blocks.map Blk.len)
+    (hin1 : ∀ m ∈ b.marker1 ++ segMarks sr (·.m1) b.segs (starts ns 0), MarkInside f.N sr m)
+    (hin2 : ∀ m ∈ b.marker2 ++ segMarks sr (·.m2) b.segs (starts ns 0), MarkInside f.N sr m) :
+    ∃ f', forgeBP (delayBP b delay maxdelay).st = .ok f' ∧ f'.m1.length = f.N + M ∧ f'.m2.length = f.N + M ∧
+      (∀ k (hk : k < f'.m1.length), f'.m1[k] = 1 ↔
+        (∃ m ∈ b.marker1, inWindow k (window f.N sr m) = true) ∨
+        (∃ m ∈ segMarks sr (·.m1) b.segs (starts ns 0), D ≤ k ∧ inWindow (k - D) (window f.N sr m) = true)) ∧
+      (∀ k (hk : k < f'.m2.length), f'.m2[k] = 1 ↔
+        (∃ m ∈ b.marker2, inWindow k (window f.N sr m) = true) ∨
+        (∃ m ∈ segMarks sr (·.m2) b.segs (starts ns 0), D ≤ k ∧ inWindow (k - D) (window f.N sr m) = true)) := by
+  obtain ⟨sr', ds, ns', hsr', hd, hn, hb, rfl⟩ := (forge_ok_iff b f).mp hf
+  rw [hsr] at hsr'
+  cases hsr'
+  have hl : ns'.length = b.segs.length := by
+    rw [countsGo_length sr ds ns' hn]; exact resolveGo_length _ _ _ hd
+  have hns' : ns = ns' := by
+    rw [hns]; exact mkBlocks_lens sr b.segs ns' hl
+  subst hns'
+  have hN : (assemble b sr ns).N = sumN ns := rfl
+  rw [hN] at hin1 hin2 ⊢
+  obtain ⟨hdpos, h0⟩ := pos_of_whole sr delay D hsr0 hD
+  have hMD : (maxdelay - delay) * sr = ((M - D : ℕ) : ℚ) := by
+    rw [sub_mul, hD, hM]; push_cast [Nat.cast_sub hle]; ring
+  obtain ⟨hbpos, _⟩ := pos_of_whole sr (maxdelay - delay) (M - D) hsr0 hMD
+  have e1 : rhe (delay * sr) = (D : ℤ) := by rw [hD]; exact rhe_natCast D
+  have e2 : rhe ((maxdelay - delay) * sr) = ((M - D : ℕ) : ℤ) := by rw [hMD]; exact rhe_natCast _
+  have hfr : 0 < delay → 2 ≤ rhe (delay * sr) := by
+    intro hp
+    have := hdpos.mp hp
+    rw [e1]; omega
+  have hbk : 0 < maxdelay - delay → 2 ≤ rhe ((maxdelay - delay) * sr) := by
+    intro hp
+    have := hbpos.mp hp
+    rw [e2]; omega
+  have hF := delayed_forge b sr delay maxdelay ds ns hsr hd hn hb h0 hfr hbk
+  have hm1 := delayed_marker_array sr delay maxdelay D M hsr0 hD hM hle b.marker1 (·.m1) rfl rfl
+    (g4_shiftWait_m1 delay) b.segs ns hl hin1
+  have hm2 := delayed_marker_array sr delay maxdelay D M hsr0 hD hM hle b.marker2 (·.m2) rfl rfl
+    (g4_shiftWait_m2 delay) b.segs ns hl hin2
+  have key : ∀ (abs : List Mark) (sel : Seg → Mark) (arr : List ℕ)
+      (harr : arr = paint (sumN ns + M) (abs.map (window (sumN ns) sr) ++
+        (segMarks sr sel b.segs (starts ns 0)).map
+          (fun m => ((window (sumN ns) sr m).1 + D, (window (sumN ns) sr m).2 + D)))),
+      arr.length = sumN ns + M ∧ ∀ k (hk : k < arr.length), arr[k] = 1 ↔
+        (∃ m ∈ abs, inWindow k (window (sumN ns) sr m) = true) ∨
+        (∃ m ∈ segMarks sr sel b.segs (starts ns 0), D ≤ k ∧ inWindow (k - D) (window (sumN ns) sr m) = true) := by
+    intro abs sel arr harr
+    subst harr
+    refine ⟨paint_length _ _, fun k hk => ?_⟩
+    rw [paint_on_iff]
+    constructor
+    · rintro ⟨w, hw, h1, h2⟩
+      rcases List.mem_append.mp hw with hw | hw
+      · obtain ⟨m, hm, rfl⟩ := List.mem_map.mp hw
+        exact Or.inl ⟨m, hm, by simp [inWindow, h1, h2]⟩
+      · obtain ⟨m, hm, rfl⟩ := List.mem_map.mp hw
+        simp only at h1 h2
+        refine Or.inr ⟨m, hm, by omega, ?_⟩
+        simp only [inWindow, Bool.and_eq_true, decide_eq_true_eq]
+        omega
+    · rintro (⟨m, hm, hw⟩ | ⟨m, hm, hDk, hw⟩)
+      · simp only [inWindow, Bool.and_eq_true, decide_eq_true_eq] at hw
+        exact ⟨_, List.mem_append_left _ (List.mem_map.mpr ⟨m, hm, rfl⟩), hw.1, hw.2⟩
+      · simp only [inWindow, Bool.and_eq_true, decide_eq_true_eq] at hw
+        refine ⟨_, List.mem_append_right _ (List.mem_map.mpr ⟨m, hm, rfl⟩), ?_, ?_⟩
+        · simp only; omega
+        · simp only; omega
+  obtain ⟨l1, k1⟩ := key b.marker1 (·.m1) _ hm1
+  obtain ⟨l2, k2⟩ := key b.marker2 (·.m2) _ hm2
+  exact ⟨_, hF, l1, l2, k1, k2⟩
+
+/-! non-vacuity: a 10-sample ramp with a segment-bound marker 1 (0.1 s after the segment start,
+    0.2 s long) and an absolute-time marker 1 at 0.6 s (0.2 s long), delayed by 2 of 4 samples -/
+def exMarkBP : BP :=
+  { segs := [ { name := "ramp", fn := Fn.rampFn, args := [.num 0, .num 1], dur := .num 1, m1 := (1/10, 1/5) } ],
+    marker1 := [(3/5, 1/5)], SR := .num 10 }
+
+/-- the hypotheses of `delayed_forge_markers` hold (`N = 10`, `D = 2`, `M = 4`) -/
+example : (forgeBP exMarkBP).toOption.map (fun f => (f.N, f.blocks.map Blk.len)) = some (10, [10]) ∧
+    ((1 : ℚ) / 5) * 10 = (2 : ℕ) ∧ ((2 : ℚ) / 5) * 10 = (4 : ℕ) ∧
+    (∀ m ∈ exMarkBP.marker1 ++ segMarks 10 (·.m1) exMarkBP.segs (starts [10] 0), MarkInside 10 10 m) ∧
+    (∀ m ∈ exMarkBP.marker2 ++ segMarks 10 (·.m2) exMarkBP.segs (starts [10] 0), MarkInside 10 10 m) := by
+  refine ⟨by decide +kernel, by norm_num, by norm_num, by decide +kernel, by decide +kernel⟩
+
+/-- undelayed: segment-bound marker ON at samples 1,2; absolute marker ON at samples 6,7.
+    delayed: the segment-bound one has moved to 3,4; the absolute one is still at 6,7 -/
+example : (forgeBP exMarkBP).toOption.map (·.m1) = some [0, 1, 1, 0, 0, 0, 1, 1, 0, 0] ∧
+    (forgeBP (delayBP exMarkBP (1/5) (2/5)).st).toOption.map (·.m1) = some [0, 0, 0, 1, 1, 0, 1, 1, 0, 0, 0, 0, 0, 0] := by
+  constructor <;> decide +kernel
+
+/-- a padding of exactly one sample is refused by the forger (SegmentDurationError): delays of 2 and
+    3 samples on two channels cannot be forged, although each is "0 or at least 2 samples" — hence
+    the hypotheses `D = 0 ∨ 2 ≤ D` and `M − D = 0 ∨ 2 ≤ M − D` -/
+example : forgeBP (delayBP exMarkBP (1/5) (3/10)).st = .error .segdur := by decide +kernel
+
+/-- a window that does not lie on the undelayed waveform is not simply moved: a segment-bound marker
+    reaching beyond the end is clipped at the end of the undelayed waveform, but extends into the
+    zero padding of the delayed one (so `MarkInside` cannot be dropped) -/
+example :
+    (forgeBP { exMarkBP with segs := [ { name := "ramp", fn := Fn.rampFn, args := [.num 0, .num 1], dur := .num 1, m1 := (4/5, 1/2) } ],
+                             marker1 := [] }).toOption.map (·.m1) = some [0, 0, 0, 0, 0, 0, 0, 0, 1, 1] ∧
+    (forgeBP (delayBP { exMarkBP with segs := [ { name := "ramp", fn := Fn.rampFn, args := [.num 0, .num 1], dur := .num 1, m1 := (4/5, 1/2) } ],
+                                      marker1 := [] } 0 (2/5)).st).toOption.map (·.m1) =
+      some [0, 0, 0, 0, 0, 0, 0, 0, 1, 1, 1, 1, 1, 0] := by
+  constructor <;> decide +kernel
+
+/-! ### delays inside subsequences -/
+
+/-- **the subsequence case of `forge`'s delay step**: for a stored subsequence, `_applyDelays` is
+    applied to every one of its elements — each with the delays looked up (in the *parent's*
+    settings) by that element's own channel ids — and nothing else changes: same positions in the
+    same order, same sequencing table, same settings -/
+theorem delayEntry_subsequence (s : Sequence) (sub : SubSeq) (en : Entry)
+    (h : s.delayEntry true (.sub sub) = .ok en) :
+    ∃ sub' : SubSeq, en = .sub sub' ∧ sub'.sequencing = sub.sequencing ∧ sub'.awgspecs = sub.awgspecs ∧
+      sub'.data.length = sub.data.length ∧
+      ∀ j (hj : j < sub.data.length) (hj' : j < sub'.data.length),
+        (sub'.data[j]).1 = (sub.data[j]).1 ∧ s.delayElement (sub.data[j]).2 = .ok (sub'.data[j]).2 := by
+  simp only [Sequence.delayEntry, if_true] at h
+  cases hm : sub.data.mapM (fun pe => (s.delayElement pe.2).map (fun e' => (pe.1, e'))) with
+  | error er => rw [hm] at h; simp [Except.map] at h
+  | ok d' =>
+    rw [hm] at h
+    simp only [Except.map, Except.ok.injEq] at h
+    subst h
+    have hl := mapM_ok_length _ _ _ hm
+    refine ⟨{ sub with data := d' }, rfl, rfl, rfl, hl, fun j hj hj' => ?_⟩
+    have := mapM_ok_getElem _ _ _ hm j hj hj'
+    cases hd : s.delayElement (sub.data[j]).2 with
+    | error er => rw [hd] at this; simp [Except.map] at this
+    | ok e' =>
+      rw [hd] at this
+      simp only [Except.map, Except.ok.injEq] at this
+      rw [← this]
+      exact ⟨rfl, rfl⟩
+
+/-- ... and with delays disabled a subsequence (like an element) is left as it is -/
+theorem delayEntry_off (s : Sequence) (en : Entry) : s.delayEntry false en = .ok en := by
+  cases en <;> rfl
+
+/-- non-vacuity: the delay step succeeds on the example's subsequence -/
+example : (G4Ex.exSeq.delayEntry true (.sub G4Ex.exSub)).toOption.isSome = true := by decide +kernel
+
+/-! ### the delayed channel as `forge` delivers it -/
+
+/-- **`forge` with delays on, a blueprint channel at an element position**: the forged channel `k`
+    of position `i+1` — whatever filters and time option — is the stored element's `k`-th channel
+    (same id, same flags) and holds that channel's undelayed waveform moved later by exactly
+    `D = delay·SR` samples (`D` zeros in front, `M − D` zeros behind, `M = maxdelay·SR`), where the
+    delay is the one declared for *that channel's id* (`ds[k] = delayOf (e.chans[k]).1`) -/
+theorem forge_delayed_bp_channel (s : Sequence) (fl t : Bool) (out : List (ℕ × ForgedPos))
+    (h : s.forge true fl t = .ok out) (i : ℕ) (hi : i < out.length) (e : Element)
+    (he : Dict.get? s.data ((i + 1 : ℕ) : ℤ) = some (.el e)) (ds : List ℚ) (hds : e.channels.mapM s.delayOf = .ok ds)
+    (sr : ℚ) (hsr : e.getSR = .ok (.num sr)) (hsr0 : 0 < sr)
+    (k : ℕ) (hk : k < e.chans.length) (hkd : k < ds.length) (b : BP) (hb : (e.chans[k]).2.data = .bp b)
+    (f : Forged) (hf : forgeBP b = .ok f) (ys : List ℚ) (hev : Sequence.Wave.eval? { blocks := f.blocks } = some ys)
+    (D M : ℕ) (hD : ds[k] * sr = D) (hM : maxR ds * sr = M)
+    (hfront : D = 0 ∨ 2 ≤ D) (hback : M - D = 0 ∨ 2 ≤ M - D) :
+    s.delayOf (e.chans[k]).1 = .ok ds[k] ∧
+    ∃ c sq f', out[i] = (i + 1, { sequencing := sq, isSub := false, content := [(1, c, none)] }) ∧
+      f'.N = f.N + M ∧
+      Sequence.Wave.eval? { blocks := f'.blocks } = some (List.replicate D 0 ++ ys ++ List.replicate (M - D) 0) ∧
+      ∃ (hc : k < c.length), (c[k]).1 = (e.chans[k]).1 ∧ (c[k]).2.out = ChOut.forged f' (e.chans[k]).2.flags t := by
+  constructor
+  · have := delays_by_channel_id s e ds hds k (by simpa [Element.channels, Dict.keys] using hk) hkd
+    simpa [Element.channels, Dict.keys] using this
+  obtain ⟨en, hen, hpos⟩ := (Sequence.forge_pos s true fl t out h).2 i hi
+  rw [he] at hen
+  cases hen
+  obtain ⟨e', arr, c, sq, h1, h2, h3, _, h5⟩ := Sequence.forgePos_element s true fl t (i + 1) e _ hpos
+  have hde : s.delayElement e = .ok e' := by simpa [Sequence.delayedEl] using h1
+  obtain ⟨f', hN, _, hE, harr⟩ := delayed_element_bp_channel s e e' ds hds hde sr hsr hsr0 k hk hkd b hb f hf ys hev D M hD hM
+    hfront hback t
+  obtain ⟨hl3, hw⟩ := Sequence.g4_withFilters_getElem s fl arr c h3
+  obtain ⟨hl1, _⟩ := Sequence.delayedEl_frame s e e' hde
+  obtain ⟨hl2, _⟩ := g4_getArrays_getElem e' t arr h2
+  have ka : k < arr.length := by omega
+  have hc : k < c.length := by omega
+  obtain ⟨w1, w2, _, _⟩ := hw k ka hc
+  have := harr arr h2 ka
+  refine ⟨c, sq, f', h5, hN, hE, hc, ?_, ?_⟩
+  · rw [w1, this]
+  · rw [w2, this]
+
+/-- **... and a raw-array channel**: every array of the forged channel (waveform and markers) is the
+    stored array with `D` zeros in front and `M − D` zeros behind -/
+theorem forge_delayed_raw_channel (s : Sequence) (fl t : Bool) (out : List (ℕ × ForgedPos))
+    (h : s.forge true fl t = .ok out) (i : ℕ) (hi : i < out.length) (e : Element)
+    (he : Dict.get? s.data ((i + 1 : ℕ) : ℤ) = some (.el e)) (ds : List ℚ) (hds : e.channels.mapM s.delayOf = .ok ds)
+    (sr : ℚ) (hsr : e.getSR = .ok (.num sr)) (hsr0 : 0 < sr)
+    (k : ℕ) (hk : k < e.chans.length) (hkd : k < ds.length) (a : Dict String (List ℚ)) (sv : Val)
+    (ha : (e.chans[k]).2.data = .arr a sv) (D M : ℕ) (hD : ds[k] * sr = D) (hM : maxR ds * sr = M) :
+    ∃ c sq, out[i] = (i + 1, { sequencing := sq, isSub := false, content := [(1, c, none)] }) ∧
+      ∃ (hc : k < c.length) (a' : Dict String (List ℚ)) (tm : Option (ℕ × ℚ)),
+        (c[k]).1 = (e.chans[k]).1 ∧ (c[k]).2.out = ChOut.arrays a' (e.chans[k]).2.flags tm ∧
+        Dict.keys a' = Dict.keys a ∧ ∀ key, Dict.get? a' key = (Dict.get? a key).map (padArr D (M - D)) := by
+  obtain ⟨en, hen, hpos⟩ := (Sequence.forge_pos s true fl t out h).2 i hi
+  rw [he] at hen
+  cases hen
+  obtain ⟨e', arr, c, sq, h1, h2, h3, _, h5⟩ := Sequence.forgePos_element s true fl t (i + 1) e _ hpos
+  have hde : s.delayElement e = .ok e' := by simpa [Sequence.delayedEl] using h1
+  obtain ⟨_, harr⟩ := delayed_element_raw_channel s e e' ds hds hde sr hsr hsr0 k hk hkd a sv ha D M hD hM t
+  obtain ⟨hl3, hw⟩ := Sequence.g4_withFilters_getElem s fl arr c h3
+  obtain ⟨hl1, _⟩ := Sequence.delayedEl_frame s e e' hde
+  obtain ⟨hl2, _⟩ := g4_getArrays_getElem e' t arr h2
+  have ka : k < arr.length := by omega
+  have hc : k < c.length := by omega
+  obtain ⟨w1, w2, _, _⟩ := hw k ka hc
+  obtain ⟨a', tm, h6, h7, h8⟩ := harr arr h2 ka
+  refine ⟨c, sq, h5, hc, a', tm, ?_, ?_, h7, h8⟩
+  · rw [w1, h6]
+  · rw [w2, h6]
+
+/-- **inside a subsequence**: content entry `j` of a subsequence position is the subsequence's
+    element `j+1` after the same delay step (delays looked up in the parent's settings by that
+    element's own channel ids) — so `delayed_element_bp_channel` / `delayed_element_raw_channel`
+    describe each of its channels -/
+theorem forge_delayed_subsequence (s : Sequence) (fl t : Bool) (out : List (ℕ × ForgedPos))
+    (h : s.forge true fl t = .ok out) (i : ℕ) (hi : i < out.length) (sub : SubSeq)
+    (he : Dict.get? s.data ((i + 1 : ℕ) : ℤ) = some (.sub sub)) (j : ℕ) (hj : j < (out[i]).2.content.length) :
+    ∃ e e' arr c q2, Dict.get? sub.data ((j + 1 : ℕ) : ℤ) = some e ∧ s.delayElement e = .ok e' ∧
+      e'.getArrays t = .ok arr ∧ (out[i]).2.content[j] = (j + 1, c, some q2) ∧ c.length = arr.length ∧
+      ∀ k (hk : k < arr.length) (hc : k < c.length), (c[k]).1 = (arr[k]).1 ∧ (c[k]).2.out = (arr[k]).2 := by
+  obtain ⟨en, hen, hpos⟩ := (Sequence.forge_pos s true fl t out h).2 i hi
+  rw [he] at hen
+  cases hen
+  obtain ⟨_, _, _, _, _, _, hall⟩ := Sequence.forgePos_sub s true fl t (i + 1) sub _ hpos
+  obtain ⟨e, e', arr, c, q2, hge, h1, h2, h3, _, hcj⟩ := hall j hj
+  have hde : s.delayElement e = .ok e' := by simpa [Sequence.delayedEl] using h1
+  obtain ⟨hl3, hw⟩ := Sequence.g4_withFilters_getElem s fl arr c h3
+  exact ⟨e, e', arr, c, q2, hge, hde, h2, hcj, hl3, fun k hk hc => ⟨(hw k hk hc).1, (hw k hk hc).2.1⟩⟩
+
+/-- non-vacuity of the three `forge_delayed_*` theorems: the example sequence forges with delays on,
+    holds the example element at position 1 (blueprint channel index 0, raw channel index 1) and
+    the example subsequence at position 2; the delays, sample rate and the undelayed waveform are
+    those of the example after `delayed_element_raw_channel` -/
+example : (G4Ex.exSeq.forge true true false).toOption.isSome = true ∧
+    Dict.get? G4Ex.exSeq.data ((0 + 1 : ℕ) : ℤ) = some (.el G4Ex.exEl) ∧
+    Dict.get? G4Ex.exSeq.data ((1 + 1 : ℕ) : ℤ) = some (.sub G4Ex.exSub) ∧
+    (G4Ex.exEl.chans[0]'(by decide)).2.data = .bp G4Ex.exBP ∧
+    (G4Ex.exEl.chans[1]'(by decide)).2.data = .arr [("wfm", List.replicate 10 0)] (.num 10) := by
+  refine ⟨by decide +kernel, rfl, rfl, rfl, rfl⟩
+
+/-- a caveat on "each delay is applied to the channel it was set for": the settings key is built
+    from the *printed* channel id (`f"channel{chan}_delay"`), so the int channel `1` and the string
+    channel `"1"` share one delay (and one filter, amplitude, offset) setting -/
+example : keyOf (.int 1) "delay" = keyOf (.str "1") "delay" ∧ (Chan.int 1 ≠ Chan.str "1") := by
+  constructor <;> decide
+
+/-! ### "no channel id twice" is a reachable invariant -/
+
+/-- **`Dict.WF` is an invariant of element construction**: whatever the public element API builds
+    (`Element.ApiBuilt`: the empty element closed under `addBluePrint`, `addArray`, `addFlags`,
+    `changeArg`, `changeDuration`, `validateDurations`, `_applyDelays`, `copy` — accepted or refused
+    calls alike) lists no channel id twice -/
+theorem built_element_wf (e : Element) (h : Element.ApiBuilt e) : Dict.WF e.chans := h.wf
+
+/-- ... and so does every element stored in a sequence the public sequence API builds
+    (`Sequence.ApiBuilt`: the empty sequence closed under `addElement` of built elements,
+    `addSubSequence`, all settings and sequencing setters, `copy` and `+`) -/
+theorem built_sequence_wf (s : Sequence) (h : Sequence.ApiBuilt s) (p : ℤ) (e : Element)
+    (hg : Dict.get? s.data p = some (.el e)) : Dict.WF e.chans := h.elemsWF.get p e hg
+
+/-- `element_delay_paths_agree` without the well-formedness hypothesis, for built elements -/
+theorem element_delay_paths_agree_built (s : Sequence) (e e' e'' : Element) (chans : List Chan) (delays : List ℚ)
+    (srv : Val) (t : Bool) (hb : Element.ApiBuilt e) (hperm : chans.Perm e.channels)
+    (h1 : s.delayElement e = .ok e') (hd : chans.mapM s.delayOf = .ok delays)
+    (hsr : e.getSR = .ok srv) (h2 : Sequence.prepDelayElement srv e chans delays = .ok e'') :
+    e'.getArrays t = e''.getArrays t :=
+  element_delay_paths_agree s e e' e'' chans delays srv t hb.wf hperm h1 hd hsr h2
+
+/-- **the output path equals forge, for every sequence the public API builds** (no hypothesis on
+    the channel stores): whenever both succeed, `_prepareForOutputting` — the common front end of
+    `outputForAWGFile` and `outputForSEQXFile` — delivers at every position exactly the per-channel
+    arrays of `forge(apply_delays=True, apply_filters=True)` -/
+theorem output_path_equals_forge_built (s : Sequence) (hs : Sequence.ApiBuilt s) (F : List (ℕ × ForgedPos))
+    (P : List (Dict Chan ChOutF)) (hF : s.forge true true false = .ok F) (hP : s.prepareForOutputting = .ok P) :
+    P.length = F.length ∧
+    ∀ i (h1 : i < F.length) (h2 : i < P.length), ∃ sq, Dict.get? s.sequencing ((i + 1 : ℕ) : ℤ) = some sq ∧
+      F[i] = (i + 1, { sequencing := sq, isSub := false, content := [(1, P[i], none)] }) :=
+  output_path_equals_forge s F P hF hP (fun p e h => hs.elemsWF.get p e h)
+
+/-! non-vacuity: an element and a sequence built through the public API, with a delay on channel 1 -/
+
+def exBuiltEl : Element :=
+  ((({} : Element).addBluePrint (.int 1) G4Ex.exBP).st.addArray (.str "A") (List.replicate 10 0) (.num 10) []).st
+
+/-- non-vacuity (C10, reachable invariant): the example element is built through the public API -/
+theorem exBuiltEl_built : Element.ApiBuilt exBuiltEl := .addArray _ _ _ _ _ (.addBluePrint _ _ _ .empty)
+
+def exBuilt0 : Sequence := SeqCore.setSR {} (.num 10)
+def exBuilt1 : Sequence := (Sequence.addElement exBuilt0 1 exBuiltEl).st
+def exBuilt2 : Sequence := (Sequence.addElement exBuilt1 2 exBuiltEl).st
+def exBuilt3 : Sequence := SeqCore.setChannelDelay exBuilt2 (.int 1) (.num (1/5))
+def exBuilt4 : Sequence := SeqCore.setChannelAmplitude exBuilt3 (.int 1) (.num 2)
+def exBuiltSeq : Sequence := SeqCore.setChannelAmplitude exBuilt4 (.str "A") (.num 2)
+
+/-- non-vacuity (C10, reachable invariant): the example sequence is built through the public API -/
+theorem exBuiltSeq_built : Sequence.ApiBuilt exBuiltSeq :=
+  .setSpec _ _ _ (.setSpec _ _ _ (.setSpec _ _ _
+    (.addElement _ _ _ (.addElement _ _ _ (.setSpec _ _ _ .empty) exBuiltEl_built) exBuiltEl_built)))
+
+/-- both paths succeed on it (so `output_path_equals_forge_built` applies) -/
+example : (exBuiltSeq.forge true true false).toOption.isSome = true ∧ exBuiltSeq.prepareForOutputting.toOption.isSome = true := by
+  constructor <;> decide +kernel
 
 end BB.C10
